@@ -5,11 +5,18 @@ Content-Length or chunked bodies) reach a real HTTPChannel in tape-chosen
 pieces.  Per request the application finishes at once, writes/finishes at later
 tape-chosen steps (directly or through a registered push producer), or never
 finishes; it asks for 1-3 notifyFinish() Deferreds per request (all before the
-response finishes or the connection is lost).  The transport has a small send
-buffer and the client reads at tape-chosen times (producer pause/resume), the
-simulated clock advances (idle time-out on sim.clock), and the connection is
-lost at a tape-chosen event boundary - between header and body bytes,
-mid-response, while idle - or closed by the client at the end.
+response finishes or the connection is lost), some of them from inside the
+callback of another request's notification.  Requests are HTTP/1.1 or (a few)
+HTTP/1.0 and may carry Connection tokens (close, keep-alive, any case, lists), so
+that the server itself ends the connection after some responses.  The transport
+has a small send buffer and the client reads at tape-chosen times (producer
+pause/resume), the simulated clock advances (idle time-out on sim.clock), and the
+connection is lost at a tape-chosen event boundary - between header and body
+bytes, mid-response, while idle - or closed by the client at the end.  In a share
+of the runs the transport reports the loss synchronously from inside
+loseConnection()/abortConnection() (as in-memory transports do), i.e. the loss
+point lies INSIDE the channel's own close request at the end of a non-persistent
+response or of an idle time-out.
 
 Oracle: (1) when request k+1 is handed to the application, request k's finish()
 has been called and the bytes written so far parse as exactly k complete
@@ -40,13 +47,24 @@ COMPONENTS = {
 }
 RULE = ("run = 1-6 pipelined requests delivered in tape-chosen pieces, interleaved with application steps, client reads, clock advances (idle time-out "
         "5 s / 60 s / none) and, in 60% of the runs, a connection loss at a tape-chosen event boundary; every run ends with the connection going away; "
+        "requests are HTTP/1.1 or (last: 15%, others: 3%) HTTP/1.0 and carry a Connection header (close / keep-alive in any case, comma lists) with "
+        "p=0.25 (last) / 0.06 (others); in 25% of the runs the transport reports a loss synchronously from inside loseConnection()/abortConnection(); "
+        "30% of the notification callbacks ask for another notifyFinish() from inside the callback (of the request that is unfinished at that moment: "
+        "full verdict; of the same request: see ASSUMPTIONS); "
         "non-trivial = at least two requests reached the application, or one did and the connection was lost while its response was unfinished")
 ASSUMPTIONS = ["notifyFinish() is requested before the response finishes or the connection is lost (later requests get no verdict)",
+               "a notifyFinish() requested from inside a notification callback of the SAME request is such a later request (the callback runs after "
+               "finish()/connectionLost has taken effect: Request.finished / _disconnected are already set, the next pipelined request may already "
+               "have been handed over): no verdict on whether it fires; if it fires, it must fire once and with the matching result",
+               "how many of the pipelined requests are served after a request that allows the server to close (HTTP/1.0, Connection: close) is not "
+               "part of the statement: only requests that reached the application are judged",
                "the application does not call finish() on a request whose notifyFinish already failed (documented to raise); it may still call write()",
                "requests are well-formed (malformed input belongs to C19)"]
 cleanup = H.cleanup
 
 BEHAVIOURS = ["sync", "later", "producer", "never", "later"]
+# request-side Connection header values: the close / keep-alive options in any case, alone and in comma lists
+CONN_VALUES = [b"close", b"keep-alive", b"Close", b"Keep-Alive", b"CLOSE", b"KEEP-ALIVE", b"keep-alive, close", b"close, TE", b"TE, keep-alive"]
 PAYLOADS = [b"", b"hello", b"x" * 40, b"\r\n0\r\n\r\n", b"HTTP/1.1 200 OK\r\n\r\n", b"y" * 9]
 
 
@@ -59,6 +77,7 @@ class Rec:
         self.finished = False      # finish() returned
         self.lost = False          # connection lost while unfinished
         self.notes = []            # one list of observed results per notifyFinish Deferred
+        self.renotes = []          # same, for Deferreds requested from inside a notification callback of this very request (no verdict on firing)
 
 
 def run(sim):
@@ -73,6 +92,7 @@ def run(sim):
     hwm = sim.draw_choice([None, 30, 8], "hwm")
     inject_loss = sim.draw_bool(0.6, "inject-loss")
     loss_at = sim.draw_int(1, 45, "loss-at") if inject_loss else None
+    sync_loss = sim.draw_bool(0.25, "sync-loss")     # the transport reports a loss from inside loseConnection()/abortConnection()
     plans = []
     stream = bytearray()
     bounds = []
@@ -84,16 +104,20 @@ def run(sim):
         explicit_cl = sim.draw_bool(0.3, "explicit-cl")
         late_note = sim.draw_bool(0.3, "late-notify")
         plans.append({"beh": beh, "nnote": nnote, "pieces": pieces, "cl": explicit_cl, "late_note": late_note})
-        fr = sim.draw_choice(["none", "length", "chunked"], "req-framing")
+        http10 = sim.draw_bool(0.15 if last else 0.03, "http10")
+        fr = sim.draw_choice(["none", "length"] if http10 else ["none", "length", "chunked"], "req-framing")
         body = sim.draw_choice([b"abc", b"", b"0123456789" * 3], "req-body")
-        close = last and sim.draw_bool(0.25, "conn-close")
-        w = (b"POST" if fr != "none" else b"GET") + b" /r%d HTTP/1.1\r\nHost: h.test\r\n" % i
+        conn = sim.draw_choice(CONN_VALUES, "conn-value") if sim.draw_bool(0.25 if last else 0.06, "conn-header") else None
+        close = conn is not None
+        if http10:
+            sim.probe("http10_request")
+        w = (b"POST" if fr != "none" else b"GET") + b" /r%d HTTP/1.%d\r\nHost: h.test\r\n" % (i, 0 if http10 else 1)
         if sim.draw_bool(0.15, "stray-crlf"):
             # one empty line before a request-line is legal and must be ignored (RFC 9112 2.2; some clients send it after a POST body)
             w = b"\r\n" + w
             sim.probe("stray_crlf_before_request")
         if close:
-            w += b"Connection: close\r\n"
+            w += b"Connection: " + conn + b"\r\n"
         if fr == "length":
             w += b"Content-Length: %d\r\n\r\n" % len(body)
             bounds.append(len(stream) + len(w))
@@ -107,7 +131,7 @@ def run(sim):
         stream += w
         bounds.append(len(stream))
     stream = bytes(stream)
-    sim.config = {"nreq": nreq, "timeout": timeout, "hwm": hwm, "loss_at": loss_at, "behaviours": [p["beh"] for p in plans]}
+    sim.config = {"nreq": nreq, "timeout": timeout, "hwm": hwm, "loss_at": loss_at, "sync_loss": sync_loss, "behaviours": [p["beh"] for p in plans]}
 
     recs = []
     active = []          # [rec, request, remaining writes, producer]
@@ -117,11 +141,23 @@ def run(sim):
     def full_body(idx):
         return b"%d:" % idx + b"".join(plans[idx]["pieces"])
 
-    def add_note(rec, req):
+    def add_note(rec, req, same_request_reentrant=False):
         seen = []
-        rec.notes.append(seen)
+        (rec.renotes if same_request_reentrant else rec.notes).append(seen)
+        # decided when the Deferred is requested (a pure function of the tape): does its callback ask for another notification?
+        again = not same_request_reentrant and sim.draw_bool(0.3, "notify-from-callback")
         with sim.guard("notifyFinish-raised", "call"):
             d = req.notifyFinish()
+
+        def from_callback():
+            """The application asks for a notification from inside a notification callback: of the request that is unfinished right
+            now (within the statement: full verdict), else of this very request (a late request: no verdict on firing)."""
+            if not state["lost"] and active and active[0][0] is not rec and not active[0][0].finish_called:
+                sim.probe("notify_requested_in_callback_for_unfinished_request")
+                add_note(active[0][0], active[0][1])
+            else:
+                sim.probe("notify_requested_in_callback_of_same_request")
+                add_note(rec, req, True)
 
         def cb(result):
             seen.append("ok" if result is None else "value")
@@ -129,13 +165,19 @@ def run(sim):
             sim.check("notify-twice", len(seen) == 1, "callback", "request %d deferred fired %r" % (rec.idx, seen))
             sim.check("notify-none-without-finish", rec.finish_called and not rec.lost, "callback",
                       "request %d: fired None, finish_called=%s lost=%s" % (rec.idx, rec.finish_called, rec.lost))
+            if again:
+                from_callback()
 
         def eb(f):
             seen.append("err" if isinstance(f, Failure) else "err?")
             sim.event("notify", rec.idx, "err", f.type.__name__ if isinstance(f, Failure) else "?")
             sim.check("notify-twice", len(seen) == 1, "errback", "request %d deferred fired %r" % (rec.idx, seen))
-            sim.check("notify-failure-without-loss", state["lost"] and not rec.finished, "errback",
-                      "request %d: failed with %r, lost=%s finished=%s" % (rec.idx, f, state["lost"], rec.finished))
+            # a failure is due only if the connection was lost FIRST, i.e. before finish() was called on this request: a loss that the
+            # channel itself causes (and hears about) while it completes a finished response does not interrupt that response
+            sim.check("notify-failure-without-loss", state["lost"] and rec.lost and not rec.finished, "errback",
+                      "request %d: failed with %r, lost=%s (before its finish(): %s) finished=%s" % (rec.idx, f, state["lost"], rec.lost, rec.finished))
+            if again:
+                from_callback()
 
         d.addCallbacks(cb, eb)
 
@@ -198,20 +240,37 @@ def run(sim):
         elif sim.draw_bool(0.4, "first-write-now"):
             app_step()
 
-    srv = H.Server(sim, app, timeout=timeout, hwm=hwm)
+    srv = H.Server(sim, app, timeout=timeout, hwm=hwm, sync_loss=sync_loss)
     pieces = net.cut(sim, stream, boundaries=bounds)
     queue = list(pieces)
+
+    def loss_begins():
+        # rec.lost must be set before the errbacks run: the requests whose finish() has not been called are the interrupted ones
+        # (a request whose finish() is in progress or has returned is no longer in `active`)
+        for entry in active:
+            entry[0].lost = True
+        state["lost"] = True
+
+    def sync_loss_begins():
+        # the transport is about to report the loss from inside loseConnection()/abortConnection()
+        sim.event("lose", "inside-close-request", len(active))
+        if any(r.finish_called and not r.finished for r in recs):
+            sim.probe("lost_inside_finish_of_nonpersistent_response")
+        loss_begins()
+
+    srv.t.on_sync_loss = sync_loss_begins
 
     def lose(clean):
         if state["lost"]:
             return
-        # rec.lost must be set before the errbacks run
-        for entry in active:
-            entry[0].lost = True
-        state["lost"] = True
+        loss_begins()
         sim.event("lose", "clean" if clean else "unclean", len(active))
         with sim.guard("connectionLost-raised", "lose"):
             srv.lose(clean=clean)
+        after_loss()
+
+    def after_loss():
+        state["loss_checked"] = True
         # (3) every Deferred of an unfinished request that reached the application failed, exactly once, right now
         for rec in recs:
             if not rec.finished:
@@ -276,6 +335,8 @@ def run(sim):
     if not state["lost"]:
         # the client goes away at the end of every run
         lose(clean=True)
+    elif not state.get("loss_checked"):
+        after_loss()        # the loss was reported from inside a close request of the channel
     if srv.t.log.count("pause"):
         sim.probe("producer_paused_by_transport", srv.t.log.count("pause"))
 
@@ -290,6 +351,11 @@ def run(sim):
         want = ["ok"] if rec.finished else ["err"]
         sim.check("notify-count", all(n == want for n in rec.notes), "finished" if rec.finished else "lost",
                   lambda: "request %d (finished=%s): notifyFinish results %r" % (rec.idx, rec.finished, rec.notes))
+        # requested from inside a notification callback of the same request: may stay unfired (late request), else as above
+        sim.check("notify-count", all(n in ([], want) for n in rec.renotes), "requested-in-own-callback",
+                  lambda: "request %d (finished=%s): results of notifyFinish() requested in its own notification callback %r" % (rec.idx, rec.finished, rec.renotes))
+        if any(rec.renotes):
+            sim.probe("notify_requested_in_own_callback_fired")
     # (4) nothing after connectionLost
     sim.check("write-after-connection-lost", srv.t.writes_after_lost == 0, "transport", detail)
     # (2) responses in request order, not interleaved, bodies intact
@@ -301,7 +367,9 @@ def run(sim):
         complete = k < nfin
         sim.check("wire-order", r.get(b"x-idx") == [b"%d" % k] and r.code == 200, "x-idx", lambda: "response %d: %r\n%s" % (k, r.headers, detail()))
         if complete:
-            sim.check("wire-body", r.body == full_body(k) and r.framing in ("chunked", "length"), "finished", lambda: "response %d: %r\n%s" % (k, r.body, detail()))
+            # delimited by chunking or Content-Length, or (HTTP/1.0 without an application-supplied length) by the server closing after it
+            framed = r.framing in ("chunked", "length") or (r.framing == "close" and k == len(rs) - 1 and srv.t.close_at is not None)
+            sim.check("wire-body", r.body == full_body(k) and framed, "finished", lambda: "response %d (%s): %r\n%s" % (k, r.framing, r.body, detail()))
         else:
             sim.check("wire-body", full_body(k).startswith(r.body) or r.framing == "close" and (b"%d:" % k).startswith(r.body[:len(b"%d:" % k)]),
                       "unfinished", lambda: "response %d: %r\n%s" % (k, r.body, detail()))
@@ -321,4 +389,6 @@ MUTANTS = [
     'CAUGHT http.py Request.connectionLost: `d.errback(reason)` -> `d.callback(None)` -> notify-none-without-finish:callback',
     'CAUGHT http.py HTTPChannel.rawDataReceived: do not buffer a pipelined POST while a request is handled -> server-raised:drive:AttributeError',
     'SURVIVED (equivalent) http.py Request._cleanup: do not reset `self.notifications = []`: the finished request is removed from channel.requests, so nothing fires the list again',
+    'CAUGHT (round 4) http.py HTTPChannel.requestDone: non-persistent branch calls loseConnection() BEFORE the finished request is removed from channel.requests (a transport that reports the loss inside loseConnection() makes the finished request fail) -> notify-failure-without-loss:errback',
+    'SURVIVED (outside the statement) http.py Request._cleanup/connectionLost: detach the notification list before firing (a notifyFinish() requested from inside a notification callback of the same request never fires): the callback runs after finish()/loss has taken effect, so this is a late request, which the unchanged tree leaves unfired as well when it is made one tick later',
 ]
